@@ -71,11 +71,26 @@ func LoadInProcess(mainSrc string, rtSrc string) (*Loaded, error) {
 	if err != nil {
 		return nil, fmt.Errorf("rt: %w", err)
 	}
-	mPkg, mFile, mInfo, err := checkPkg(fset, gen.MainPath, "main.go", mainSrc, mapImporter{gen.RTPath: rtPkg})
+	imp := mapImporter{gen.RTPath: rtPkg}
+	var syncPkg *types.Package
+	var syncFile *ast.File
+	var syncInfo *types.Info
+	if strings.Contains(mainSrc, "\"sync\"") {
+		// a minimal stand-in for package sync (same path and method names, so the predefined summaries apply)
+		syncPkg, syncFile, syncInfo, err = checkPkg(fset, "sync", "sync.go", FakeSync, mapImporter{})
+		if err != nil {
+			return nil, fmt.Errorf("sync: %w", err)
+		}
+		imp["sync"] = syncPkg
+	}
+	mPkg, mFile, mInfo, err := checkPkg(fset, gen.MainPath, "main.go", mainSrc, imp)
 	if err != nil {
 		return nil, fmt.Errorf("main: %w", err)
 	}
 	prog := ssa.NewProgram(fset, ssa.InstantiateGenerics|ssa.BuildSerially)
+	if syncPkg != nil {
+		prog.CreatePackage(syncPkg, []*ast.File{syncFile}, syncInfo, true)
+	}
 	rt := prog.CreatePackage(rtPkg, []*ast.File{rtFile}, rtInfo, true)
 	m := prog.CreatePackage(mPkg, []*ast.File{mFile}, mInfo, false)
 	prog.Build()
@@ -248,3 +263,18 @@ func PanicStack() string {
 	}
 	return st
 }
+
+// FakeSync is a minimal stand-in for package sync for in-process loading of concurrent subjects.
+const FakeSync = `package sync
+
+type Mutex struct{ state int32 }
+
+func (m *Mutex) Lock()   { m.state = 1 }
+func (m *Mutex) Unlock() { m.state = 0 }
+
+type WaitGroup struct{ n int32 }
+
+func (w *WaitGroup) Add(d int) { w.n += int32(d) }
+func (w *WaitGroup) Done()     { w.n-- }
+func (w *WaitGroup) Wait()     {}
+`
